@@ -38,7 +38,7 @@ type replayCase struct {
 
 func main() {
 	kit.Main("C01", "exploration", func(r *kit.Run) {
-		r.Rule("complete products per family F1..F8 (F8: string tables large enough for 2- and 3-byte string ids) (see DESIGN.md C01; quick restricts F1's A x B square to B = A with one column flipped / info removed / keys_vals flipped / complement / full / empty) x decoder counts; a case is one (file, procs) scan; " +
+		r.Rule("complete products per family F1..F8 (F8: string tables large enough for 2- and 3-byte string ids; F9: element counts 63..8001 and id/coordinate magnitudes that cross varint and length boundaries) (see DESIGN.md C01; quick restricts F1's A x B square to B = A with one column flipped / info removed / keys_vals flipped / complement / full / empty) x decoder counts; a case is one (file, procs) scan; " +
 			"non-trivial = file has >= 2 data blocks or at least one optional column/field/part absent; distinct = FNV of file bytes + procs")
 		r.Assume("gen/pbfgen's hand-written protobuf encoder and its expected-object computation follow osmformat.proto/fileformat.proto")
 		r.Assume("zlib blobs without raw_size, non-packed repeated fields and plain Node groups are outside the enumerated valid-file domain")
@@ -90,6 +90,7 @@ func main() {
 		genF6(add)
 		genF7(add)
 		genF8(add)
+		genF9(add)
 		r.Set("family_counts", fams)
 		r.ParIsolated(len(cases), func(i int) { runCase(r, &cases[i]) }, func(i int, what, detail string) {
 			c := &cases[i]
@@ -525,5 +526,50 @@ func genF8(add func(tcase)) {
 		plain := pbfgen.Block{Groups: mixedGroups(50, false)}
 		add(tcase{Family: "F8", Desc: fmt.Sprintf("%d unused string table entries before the used ones", n), NonTrivial: true,
 			File: &pbfgen.File{Header: pbfgen.StdHeader(), Blocks: []pbfgen.Block{blk, plain, blk}}})
+	}
+}
+
+// ---- F9: element counts and values that cross varint / length boundaries ----
+
+func genF9(add func(tcase)) {
+	for _, n := range []int{63, 64, 127, 128, 129, 1000, 8000, 8001} {
+		d := &pbfgen.Dense{Info: true, Cols: pbfgen.ColsMask(63), KeysVals: true}
+		for i := 0; i < n; i++ {
+			nd := pbfgen.DenseNode(int64(i)*3-50, int64(i%17))
+			switch i % 5 {
+			case 0:
+				nd.ID = int64(i) + 1<<40 // large deltas up and down
+			case 1:
+				nd.ID = -int64(i) - 7
+				nd.Lat, nd.Lon = -900000000+int64(i), 1800000000-int64(i)
+			case 2:
+				nd.Tags = nil
+			}
+			d.Nodes = append(d.Nodes, nd)
+		}
+		refs := make([]int64, n)
+		lats := make([]int64, n)
+		lons := make([]int64, n)
+		var members []pbfgen.Member
+		var tags [][2]string
+		for i := 0; i < n; i++ {
+			refs[i] = int64(i*i) - int64(n)*3 + (int64(i%3) << 33)
+			lats[i], lons[i] = int64(i)*1000-4000, -int64(i)*999
+			if i < 600 {
+				members = append(members, pbfgen.Member{Type: i % 3, Ref: refs[i], Role: fmt.Sprintf("role%d", i%5)})
+			}
+			if i < 300 {
+				tags = append(tags, [2]string{fmt.Sprintf("key%d", i), fmt.Sprintf("value %d", i%7)})
+			}
+		}
+		w := pbfgen.Way{ID: 1<<35 + int64(n), Info: pbfgen.FullInfo(3), Tags: tags, Refs: refs, Lats: lats, Lons: lons}
+		w2 := pbfgen.Way{ID: 5, Refs: []int64{1, 2}}
+		rl := pbfgen.Relation{ID: 1<<36 + int64(n), Info: pbfgen.FullInfo(4), Tags: tags, Members: members}
+		f := &pbfgen.File{Header: pbfgen.StdHeader(), Blocks: []pbfgen.Block{
+			{Groups: []pbfgen.Group{{Dense: d}, {Ways: []pbfgen.Way{w, w2}}, {Relations: []pbfgen.Relation{rl}}}},
+			{Groups: mixedGroups(70, true)},
+			{Groups: []pbfgen.Group{{Ways: []pbfgen.Way{w2, w}}, {Dense: d}}, Enc: pbfgen.Enc{Raw: true}},
+		}}
+		add(tcase{Family: "F9", Desc: fmt.Sprintf("%d dense nodes / way refs / members per element, large and negative ids", n), File: f, NonTrivial: true})
 	}
 }
